@@ -106,6 +106,8 @@ class Lib:
             "staticmethod": B("staticmethod", lambda I, a, k: StaticMethodVal(a[0])),
             "property": B("property", lambda I, a, k: PropertyVal(a[0])),
             "all": B("all", self.b_all), "any": B("any", self.b_any),
+            "bytes": B("bytes", lambda I, a, k: (_ for _ in ()).throw(Unsupported("bytes() call"))),
+            "object": B("object", lambda I, a, k: (_ for _ in ()).throw(Unsupported("object() call"))),
             "True": True, "False": False, "None": None,
         }
         for name, cls in self.exc.items():
